@@ -26,7 +26,7 @@ from .genstatemachines import MODES, SPACES, micro, tok, model_logs, compare, _U
 logging.disable(logging.WARNING)
 warnings.filterwarnings('ignore')
 
-NBLUR = 4
+NBLUR = 5
 SUB = ['pyramid_maker', 'blurs', 'periphery_mask'] + [x for i in range(NBLUR) for x in ('blurs[%d].lod_map' % i, 'blurs[%d].lod_fraction' % i)]
 OBSERVED = {
     'MetamericLoss': ['target', 'target_gaze', 'target_stats', 'fovea_mask', 'loss_map'] + SUB,
@@ -35,7 +35,7 @@ OBSERVED = {
     'calc_statsmaps': ['fovea_mask'] + SUB,
 }
 GAZES = [[0.5, 0.5], [0.2, 0.7], [0.9, 0.1]]
-SHAPES = [(1, 3, 32, 32), (1, 3, 48, 32), (1, 1, 32, 32), (1, 1, 48, 48)]
+SHAPES = [(1, 3, 32, 32), (1, 3, 48, 32), (1, 1, 32, 32), (1, 1, 48, 48), (1, 1, 64, 64)]
 DEVICES = [torch.device('cpu'), torch.device('cpu', 0)]
 
 
@@ -109,7 +109,7 @@ def _rand_cfgs(rng, n, flags, vary, couple=False):
             c['device'] = 1 - c['device']
         r = rng.random()
         if r < 0.3:
-            c['shape'] = rng.randrange(len(SHAPES))
+            c['shape'] = rng.randrange(4)
         elif r < 0.55:
             c['gaze'] = rng.randrange(3)
         elif r < 0.75:
@@ -254,11 +254,11 @@ def check_generated_statsmaps(ctx):
 
     # a fixed tour: every sub-cache is invalidated once (levels down and up, channel count, orientations, device, size, gaze, equi, alpha, mode)
     for flags in (dict(l2=True, radial=False, fullres=False), dict(l2=False, radial=False, fullres=True)):
-        c = dict(device=0, alpha=0.2, width=2.0, distance=0.3, levels=3, orient=2, mode='quadratic', equi=False, shape=0, target=0, gaze=0,
+        c = dict(device=0, alpha=0.2, width=2.0, distance=0.3, levels=2, orient=2, mode='quadratic', equi=False, shape=0, target=0, gaze=0,
                  space='RGB', vis=False, **flags)
         tour = [c]
-        for change in (dict(levels=2), dict(shape=2), dict(orient=4), dict(device=1), dict(shape=3), dict(levels=3), dict(gaze=1), dict(equi=True),
-                       dict(alpha=0.35), dict(mode='linear'), dict(shape=0, gaze=2)):
+        for change in (dict(levels=3), dict(shape=2), dict(orient=4), dict(device=1), dict(shape=3), dict(levels=2), dict(gaze=1), dict(equi=True),
+                       dict(alpha=0.35), dict(mode='linear'), dict(shape=0, gaze=2), dict(levels=4, shape=4)):
             tour.append(dict(tour[-1], **change))
         run_direct(tour, flags, flags['l2'])
     for it in range(nseq):
